@@ -6,9 +6,8 @@
 pub mod interp;
 pub mod prog;
 
-use std::cell::RefCell;
 use std::collections::{HashMap, VecDeque};
-use std::sync::Arc;
+use std::sync::{Arc, Condvar, Mutex};
 
 use jiff::tz::{Offset, TimeZone};
 use serde_json::{json, Value};
@@ -18,7 +17,7 @@ use crate::c20::interp::{Env, Slot, Slots};
 use crate::c20::prog::*;
 use crate::driver::{Outcome, Prop, SchedSpec, Stats, Tier, Violation, WorkerCtx};
 use crate::rng::{Fnv, Rng};
-use crate::sim::{self, AbortRun};
+use crate::sim::{self, Policy};
 
 struct ZoneModel {
     spec: Spec,
@@ -52,18 +51,164 @@ struct Run {
     eq_checked: u64,
     mem_checks: u64,
     fp: Fnv,
+    /// Identity of heap zones: the handle's pointer bits -> zone instance.
+    bits: HashMap<usize, u32>,
+    /// Zones whose handle count changed since the last memory check.
+    dirty: Vec<u32>,
 }
 
-thread_local! {
-    static RUN: RefCell<Option<Run>> = const { RefCell::new(None) };
-}
+// Every simulated thread is a real OS thread (so that thread-local state
+// inside jiff, if any, is per simulated thread), but only the thread holding
+// the baton runs; the run state is therefore never contended.
+static RUN: Mutex<Option<Run>> = Mutex::new(None);
 
 fn with_run<R>(f: impl FnOnce(&mut Run) -> R) -> R {
-    RUN.with(|r| f(r.borrow_mut().as_mut().expect("no c20 run")))
+    let mut g = RUN.lock().unwrap_or_else(|e| e.into_inner());
+    f(g.as_mut().expect("no c20 run"))
 }
 
 fn aborting() -> bool {
-    RUN.with(|r| r.borrow().as_ref().map_or(true, |r| r.abort))
+    let g = RUN.lock().unwrap_or_else(|e| e.into_inner());
+    g.as_ref().map_or(true, |r| r.abort)
+}
+
+// ---------------------------------------------------------------------------
+// The scheduler: a baton passed between real threads at operation boundaries.
+// Every hand-over is decided by the run's PRNG (or the recorded choice list)
+// and recorded.
+// ---------------------------------------------------------------------------
+
+struct BatonState {
+    current: usize,
+    done: Vec<bool>,
+    policy: Policy,
+    rng: Rng,
+    replay: Vec<u16>,
+    pos: usize,
+    choices: Vec<u16>,
+    steps: u64,
+    switches: u64,
+    prio: Vec<u64>,
+    low: u64,
+    points: Vec<u64>,
+}
+
+struct Baton {
+    m: Mutex<BatonState>,
+    cv: Condvar,
+}
+
+const NOBODY: usize = usize::MAX;
+
+impl Baton {
+    fn new(n: usize, sched: &SchedSpec) -> Baton {
+        let mut rng = Rng::new(sched.seed);
+        let policy = sched.policy();
+        let mut points = vec![];
+        if let Policy::Pct { depth, est_len } = policy {
+            for _ in 1..depth {
+                points.push(rng.below(est_len.max(1) as u64));
+            }
+        }
+        let prio = (0..n).map(|_| (1 << 32) + (rng.next_u64() >> 32)).collect();
+        Baton {
+            m: Mutex::new(BatonState {
+                current: NOBODY,
+                done: vec![false; n],
+                policy,
+                rng,
+                replay: sched.choices.clone(),
+                pos: 0,
+                choices: vec![],
+                steps: 0,
+                switches: 0,
+                prio,
+                low: 1 << 20,
+                points,
+            }),
+            cv: Condvar::new(),
+        }
+    }
+
+    /// Decides who runs next (called by the thread holding the baton, or by
+    /// the main thread to start). `None`: everybody is done.
+    fn pick(st: &mut BatonState, me: Option<usize>) -> Option<usize> {
+        let runnable: Vec<usize> = (0..st.done.len()).filter(|&i| !st.done[i]).collect();
+        if runnable.is_empty() {
+            return None;
+        }
+        st.steps += 1;
+        let me_ok = me.map_or(false, |m| runnable.contains(&m));
+        let choice = match st.policy {
+            Policy::Random { stick } => {
+                if me_ok && stick > 0 && st.rng.below(16) < stick as u64 {
+                    me.unwrap()
+                } else {
+                    *st.rng.pick(&runnable)
+                }
+            }
+            Policy::Pct { .. } => {
+                if let Some(m) = me {
+                    if st.points.contains(&st.steps) {
+                        st.low -= 1;
+                        st.prio[m] = st.low;
+                    }
+                }
+                *runnable.iter().max_by_key(|&&i| st.prio[i]).unwrap()
+            }
+            Policy::Replay => {
+                let want = st.replay.get(st.pos).copied();
+                st.pos += 1;
+                match want {
+                    Some(w) if runnable.contains(&(w as usize)) => w as usize,
+                    _ if me_ok => me.unwrap(),
+                    _ => runnable[0],
+                }
+            }
+        };
+        if Some(choice) != me {
+            st.switches += 1;
+        }
+        st.choices.push(choice as u16);
+        Some(choice)
+    }
+
+    fn wait_turn(&self, me: usize) {
+        let mut st = self.m.lock().unwrap_or_else(|e| e.into_inner());
+        while st.current != me {
+            st = self.cv.wait(st).unwrap_or_else(|e| e.into_inner());
+        }
+    }
+
+    /// Hands the baton on after one operation (`finished`: this thread has
+    /// no more operations). Returns true if this thread keeps the baton.
+    fn pass(&self, me: usize, finished: bool) -> bool {
+        let mut st = self.m.lock().unwrap_or_else(|e| e.into_inner());
+        if finished {
+            st.done[me] = true;
+        }
+        match Baton::pick(&mut st, Some(me)) {
+            Some(next) if next == me => true,
+            Some(next) => {
+                st.current = next;
+                self.cv.notify_all();
+                false
+            }
+            None => {
+                st.current = NOBODY;
+                self.cv.notify_all();
+                false
+            }
+        }
+    }
+
+    fn start(&self) {
+        let mut st = self.m.lock().unwrap_or_else(|e| e.into_inner());
+        if let Some(first) = Baton::pick(&mut st, None) {
+            st.current = first;
+        }
+        self.cv.notify_all();
+    }
 }
 
 fn violate(clause: &str, detail: String) {
@@ -85,10 +230,18 @@ impl Drop for SlotBox {
             std::mem::forget(slots);
         } else {
             // Normal end or crash unwinding: really drop, and tell the model.
-            for s in slots.into_iter().flatten() {
+            // Check after every single drop, so that a premature free is
+            // reported before the next drop would touch freed memory.
+            let mut it = slots.into_iter().flatten();
+            while let Some(s) = it.next() {
                 let zone = s.zone;
                 drop(s);
                 NativeEnv.handles(zone, -1);
+                check_memory("dropping a thread's values");
+                if aborting() {
+                    std::mem::forget(it);
+                    break;
+                }
             }
         }
     }
@@ -125,19 +278,60 @@ impl NativeEnv {
     }
 }
 
+impl NativeEnv {
+    /// Registers the zone behind a freshly constructed handle and returns
+    /// its instance id.
+    fn register(&mut self, spec: &Spec, tz: &TimeZone, reference: bool) -> u32 {
+        if spec.heap() {
+            // A `TimeZone` is one word: use it as an identity token only.
+            assert_eq!(std::mem::size_of::<TimeZone>(), std::mem::size_of::<usize>());
+            let bits: usize = unsafe { std::mem::transmute_copy(tz) };
+            let known = with_run(|r| r.bits.get(&bits).copied());
+            if let Some(z0) = known {
+                // Did this constructor allocate anything that is still live?
+                // If not, it handed out another handle to an existing zone
+                // (an implementation may legitimately share allocations).
+                let fresh = alloc::record_peek_live();
+                if fresh == 0 {
+                    alloc::record_discard();
+                    let (handles, spec0) =
+                        with_run(|r| (r.zones[z0 as usize].handles, r.zones[z0 as usize].spec.clone()));
+                    if handles <= 0 {
+                        violate(
+                            "use_after_free",
+                            format!(
+                                "creating {spec:?} returned a handle to the memory of zone #{z0} ({spec0:?}), which was already freed"
+                            ),
+                        );
+                    }
+                    return z0;
+                }
+            }
+            let z = self.new_zone(spec, reference);
+            with_run(|r| r.bits.insert(bits, z));
+            return z;
+        }
+        self.new_zone(spec, reference)
+    }
+}
+
 impl Env for NativeEnv {
     fn pre_new(&mut self, _spec: &Spec) {
         alloc::record_start();
     }
 
-    fn post_new(&mut self, spec: &Spec) -> u32 {
-        let z = self.new_zone(spec, false);
+    fn post_new(&mut self, spec: &Spec, tz: &TimeZone) -> u32 {
+        // Nothing may allocate before the recording window is closed.
+        let z = self.register(spec, tz, false);
         with_run(|r| *r.kind_counts.entry(spec.kind_name()).or_default() += 1);
         z
     }
 
     fn handles(&mut self, zone: u32, delta: i32) {
         with_run(|r| {
+            if !r.dirty.contains(&zone) {
+                r.dirty.push(zone);
+            }
             let z = &mut r.zones[zone as usize];
             z.handles += delta as i64;
             if z.handles > r.max_shared && z.spec.heap() {
@@ -158,7 +352,7 @@ impl Env for NativeEnv {
                 if !have {
                     alloc::record_start();
                     let tz = interp::make_tz(spec);
-                    let zone = self.new_zone(spec, true);
+                    let zone = self.register(spec, &tz, true);
                     self.handles(zone, 1);
                     with_run(|r| r.refs.insert(spec.clone(), (tz, zone)));
                 }
@@ -233,13 +427,18 @@ impl Env for NativeEnv {
         with_run(|r| std::mem::replace(&mut r.shared, slot))
     }
 
+    fn checkpoint(&mut self, what: &'static str) -> bool {
+        check_memory(what);
+        !aborting()
+    }
+
     fn no_alloc_begin(&mut self) {
-        let (a, _) = alloc::counters();
+        let a = alloc::my_allocs();
         with_run(|r| r.no_alloc_mark = a);
     }
 
     fn no_alloc_end(&mut self, what: &'static str) {
-        let (a, _) = alloc::counters();
+        let a = alloc::my_allocs();
         let mark = with_run(|r| r.no_alloc_mark);
         if a != mark {
             violate("unexpected_alloc", format!("{what} allocated {} time(s)", a - mark));
@@ -248,7 +447,15 @@ impl Env for NativeEnv {
 }
 
 /// The memory model, checked after every operation.
+fn check_memory_full(after: &str) {
+    check_memory_impl(after, true)
+}
+
 fn check_memory(after: &str) {
+    check_memory_impl(after, false)
+}
+
+fn check_memory_impl(after: &str, full: bool) {
     for ev in alloc::take_events().into_iter().flatten() {
         match ev {
             alloc::MemEvent::DoubleFree { zone, .. } => {
@@ -260,11 +467,18 @@ fn check_memory(after: &str) {
             }
         }
     }
-    let n = with_run(|r| {
+    // Zones whose handle count changed in this operation are checked every
+    // time; all zones at thread exits and at the end of the run.
+    let list: Vec<usize> = with_run(|r| {
         r.mem_checks += 1;
-        r.zones.len()
+        let d = std::mem::take(&mut r.dirty);
+        if full {
+            (0..r.zones.len()).collect()
+        } else {
+            d.into_iter().map(|z| z as usize).collect()
+        }
     });
-    for z in 0..n {
+    for z in list {
         let (handles, spec, footprint) = with_run(|r| {
             let m = &r.zones[z];
             (m.handles, m.spec.clone(), m.footprint)
@@ -292,12 +506,20 @@ fn check_memory(after: &str) {
 
 struct CrashMarker;
 
-fn thread_main(me: u8, ops: Vec<Op>) {
+fn thread_main(me: u8, ops: Vec<Op>, baton: Arc<Baton>) {
+    let idx = me as usize;
     let r = std::panic::catch_unwind(std::panic::AssertUnwindSafe(|| {
+        // Per-thread lazy initialisation (std / jiff thread-locals) must not
+        // be attributed to the first zone this thread creates.
+        thread_warm_up();
         let mut slots = SlotBox((0..SLOTS).map(|_| None).collect());
         let mut env = NativeEnv;
+        let mut have_baton = false;
         for (i, op) in ops.iter().enumerate() {
-            sim::yield_point("c20.op");
+            if !have_baton {
+                baton.wait_turn(idx);
+                have_baton = true;
+            }
             if aborting() {
                 return;
             }
@@ -319,26 +541,44 @@ fn thread_main(me: u8, ops: Vec<Op>) {
                 with_run(|r| r.crashes += 1);
                 std::panic::panic_any(CrashMarker);
             }
+            if i + 1 < ops.len() {
+                have_baton = baton.pass(idx, false);
+            }
         }
+        if !have_baton {
+            // No operations at all: still take a turn to finish.
+            baton.wait_turn(idx);
+        }
+        // The thread ends holding the baton: its slots are dropped now.
     }));
     if let Err(p) = r {
         if p.is::<CrashMarker>() {
             // Unwinding dropped every handle the thread owned.
             if !aborting() {
-                check_memory("crash unwinding");
+                check_memory_full("crash unwinding");
             }
-        } else if !p.is::<AbortRun>() {
+        } else {
             let msg = sim::with_rt(|rt| rt.last_panic.take())
                 .unwrap_or_else(|| sim::panic_message(&*p));
             violate("panic", format!("thread {me} panicked: {msg}"));
         }
+    } else if !aborting() {
+        check_memory_full("thread exit");
     }
+    baton.pass(idx, true);
 }
 
-fn run_case(case: Arc<Case>, want_log: bool) {
+struct SchedOutcome {
+    choices: Vec<u16>,
+    steps: u64,
+    switches: u64,
+}
+
+fn run_case(case: Arc<Case>, sched: &SchedSpec, want_log: bool) -> SchedOutcome {
     alloc::reset_watches();
-    RUN.with(|r| {
-        *r.borrow_mut() = Some(Run {
+    {
+        let mut g = RUN.lock().unwrap_or_else(|e| e.into_inner());
+        *g = Some(Run {
             zones: vec![],
             refs: HashMap::new(),
             ref_answers: HashMap::new(),
@@ -362,17 +602,31 @@ fn run_case(case: Arc<Case>, want_log: bool) {
             eq_checked: 0,
             mem_checks: 0,
             fp: Fnv::new(),
-        })
-    });
+            bits: HashMap::new(),
+            dirty: vec![],
+        });
+    }
+    let baton = Arc::new(Baton::new(case.threads.len(), sched));
     let mut joins = vec![];
     for (i, ops) in case.threads.iter().enumerate() {
         let ops = ops.clone();
         let me = i as u8;
-        joins.push(shuttle::thread::spawn(move || thread_main(me, ops)));
+        let b = baton.clone();
+        joins.push(
+            std::thread::Builder::new()
+                .stack_size(512 << 10)
+                .spawn(move || thread_main(me, ops, b))
+                .expect("spawn simulated thread"),
+        );
     }
+    baton.start();
     for j in joins {
         let _ = j.join();
     }
+    let sched_out = {
+        let st = baton.m.lock().unwrap_or_else(|e| e.into_inner());
+        SchedOutcome { choices: st.choices.clone(), steps: st.steps, switches: st.switches }
+    };
     // Everything still in flight or held by the harness goes now.
     let (chans, shared, refs) = with_run(|r| {
         (
@@ -383,27 +637,33 @@ fn run_case(case: Arc<Case>, want_log: bool) {
     });
     if aborting() {
         std::mem::forget((chans, shared, refs));
-        return;
+        return sched_out;
     }
     let mut env = NativeEnv;
-    for q in chans {
-        for s in q {
-            let zone = s.zone;
-            drop(s);
-            env.handles(zone, -1);
-        }
-    }
-    if let Some(s) = shared {
+    let mut rest: Vec<Slot> = chans.into_iter().flatten().collect();
+    rest.extend(shared);
+    let mut it = rest.into_iter();
+    while let Some(s) = it.next() {
         let zone = s.zone;
         drop(s);
         env.handles(zone, -1);
+        check_memory("draining channels");
+        if aborting() {
+            std::mem::forget((it, refs));
+            return sched_out;
+        }
     }
-    check_memory("draining channels");
-    for (_, (tz, zone)) in refs {
+    let mut it = refs.into_iter();
+    while let Some((_, (tz, zone))) = it.next() {
         drop(tz);
         env.handles(zone, -1);
+        check_memory("dropping reference handles");
+        if aborting() {
+            std::mem::forget(it);
+            return sched_out;
+        }
     }
-    check_memory("dropping reference handles");
+    check_memory_full("end of run");
     // End of run: nothing may be left.
     let leftover: Vec<(usize, i64)> = with_run(|r| {
         r.zones
@@ -417,12 +677,13 @@ fn run_case(case: Arc<Case>, want_log: bool) {
         violate("harness_model", format!("handles left at end of run: {leftover:?}"));
     }
     let _ = with_run(|r| r.zones.iter().filter(|z| z.reference).count());
+    sched_out
 }
 
 /// All 187,199 fixed offsets: create, clone, query, compare with the
 /// neighbour, drop; nothing may allocate. Deterministic; run once per batch.
 pub fn fixed_sweep() -> Result<u64, Violation> {
-    let (a0, _) = alloc::counters();
+    let a0 = alloc::my_allocs();
     let ts = interp::instant(3);
     let mut n = 0u64;
     let mut prev: Option<TimeZone> = None;
@@ -462,7 +723,7 @@ pub fn fixed_sweep() -> Result<u64, Violation> {
         n += 1;
     }
     drop(prev);
-    let (a1, _) = alloc::counters();
+    let a1 = alloc::my_allocs();
     if a1 != a0 {
         return Err(Violation {
             clause: "unexpected_alloc".into(),
@@ -482,6 +743,14 @@ pub fn warm_up() {
         for q in 0..N_QUERIES {
             let _ = interp::answer(&tz, q, 3);
         }
+    }
+}
+
+fn thread_warm_up() {
+    for spec in [Spec::Posix(0), Spec::TzifSynth { k: 1, tr: true }, Spec::Fixed(1)] {
+        let tz = interp::make_tz(&spec);
+        let _ = interp::answer(&tz, 1, 3);
+        let _ = interp::answer(&tz, 7, 3);
     }
 }
 
@@ -515,17 +784,10 @@ impl Prop for C20 {
             warm_up();
             alloc::enable();
         });
-        let c = case.clone();
-        let out = sim::exec_one(
-            sched.policy(),
-            sched.seed,
-            sched.choices.clone(),
-            100_000,
-            move || run_case(c.clone(), want_trace),
-        );
-        let run = RUN.with(|r| r.borrow_mut().take());
-        let mut harness_error =
-            out.escaped_panic.map(|m| format!("panic escaped the execution: {m}"));
+        sim::install_panic_hook();
+        let out = run_case(case.clone(), sched, want_trace);
+        let run = RUN.lock().unwrap_or_else(|e| e.into_inner()).take();
+        let mut harness_error: Option<String> = None;
         let Some(run) = run else {
             return Outcome {
                 fingerprint: 0,
@@ -536,9 +798,6 @@ impl Prop for C20 {
                 trace: Value::Null,
             };
         };
-        if let Some(a) = out.abort {
-            harness_error.get_or_insert(format!("simulator aborted the run: {a:?}"));
-        }
         let mut violations = vec![];
         for v in run.violations.iter() {
             if v.clause == "harness_model" {
